@@ -12,6 +12,8 @@ CONSTANTS
   RepoWrapped = FALSE
   EmbFinally = TRUE
   RestoreOnReturn = TRUE
+  EmbRestoreAll = TRUE
+  SuperCheckFirst = TRUE
 INVARIANT TypeOK
 INVARIANT ImplRefinesReq
 INVARIANT PositionFileOK
